@@ -115,6 +115,66 @@ pub fn run(ctx: &mut Ctx) {
             ctx.eval();
         }
     }
+    // ---- requests with many attributes: 1..=120 distinct types (unknown comprehension-required,
+    //      unknown optional and built-in ones mixed), counts around every power of two and the
+    //      SmallVec inline capacity; the 420 list must name every unsupported type, in order ----
+    {
+        let counts: Vec<usize> = vec![1, 2, 7, 8, 9, 15, 16, 17, 18, 31, 32, 33, 63, 64, 65, 100, 120];
+        let reps = ctx.n(16, 160);
+        let mut gi = 0u64;
+        for &cnt in &counts {
+            for rep in 0..reps * ctx.nshards {
+                gi += 1;
+                if !ctx.mine(gi) {
+                    continue;
+                }
+                let mut r2 = ctx.rng("many-types", gi);
+                let tid = crate::gen::msg::gen_tid(&mut r2);
+                let mut types: Vec<u16> = vec![];
+                while types.len() < cnt {
+                    let t = match r2.below(4) {
+                        0 => 0x8000 | (r2.next() as u16 & 0x7fff), // optional
+                        _ => r2.next() as u16 & 0x7fff,            // comprehension-required
+                    };
+                    if t != MI && t != MI256 && t != FP && !types.contains(&t) {
+                        types.push(t);
+                    }
+                }
+                let tlvs: Vec<crate::refimpl::parse::Tlv> = types.iter().map(|t| { let l = r2.usize(6); crate::refimpl::parse::Tlv::new(*t, r2.bytes(l)) }).collect();
+                let mut buf = crate::refimpl::parse::encode(0, 1 + (rep % 7) as u16, &tid, &tlvs);
+                if rep % 3 == 0 {
+                    crate::refimpl::parse::seal(&mut buf, crate::refimpl::parse::Seal::Fingerprint, &[]);
+                }
+                let rp = ref_parse(&buf);
+                let o = Opts::default();
+                let msg = match guard(|| Message::from_bytes(&buf)) {
+                    Ok(Ok(m)) => m,
+                    other => {
+                        ctx.violation("C02", "accept-iff", "Message::from_bytes", "many-types", || codec::wit_bytes("from_bytes", &buf, &o), "Ok".into(), format!("{:?}", other.map(|r| r.map(|_| ()))));
+                        continue;
+                    }
+                };
+                let exposed_ref: Vec<u16> = expose(&rp.attrs).iter().map(|i| rp.attrs[*i].ty).collect();
+                ctx.distinct(hash64(&[77, cnt as u64, hash_bytes(&buf[..buf.len().min(64)])]));
+                ctx.count("requests-with-many-types");
+                if rep == 0 && cnt == 17 {
+                    ctx.sample("many-types-request", || json!({"bytes": hex(&buf), "exposed_types": exposed_ref}));
+                }
+                // nothing supported; everything supported; every second one; all but one
+                let all: Vec<u16> = exposed_ref.clone();
+                let half: Vec<u16> = all.iter().copied().step_by(2).collect();
+                let but_last_req: Vec<u16> = {
+                    let lr = all.iter().rposition(|t| *t < 0x8000);
+                    all.iter().enumerate().filter(|(i, _)| Some(*i) != lr).map(|(_, t)| *t).collect()
+                };
+                for (sup, req) in [(vec![], vec![]), (all.clone(), all.clone()), (half.clone(), vec![]), (but_last_req, vec![0x7f77]), (all.clone(), vec![0x7f77])] {
+                    check_policing(ctx, &buf, &msg, &rp, &exposed_ref, &sup, &req, &o);
+                    ctx.eval();
+                }
+            }
+        }
+    }
+    ctx.require("requests-with-many-types", 200);
     ctx.require("police-420", 5_000);
     ctx.require("police-400", 5_000);
     ctx.require("police-none", 1_000);
